@@ -57,7 +57,10 @@ def _cases(draw):
         st.lists(st.sampled_from(specs), min_size=min(2, len(specs)), max_size=2,
                  unique=True).map(lambda x: {'lexicon': ' '.join(x)}),
         st.just({})), min_size=1, max_size=3))
-    return {'universe': u, 'selection': sel, 'targets': targets}
+    # an interlingual index loaded after the lexicons may give their ILIs any status - also
+    # 'proposed', which does not make them the proposed ILI of some synset
+    index = draw(st.sampled_from([None, None, 'proposed', 'proposed', 'deprecated']))
+    return {'universe': u, 'selection': sel, 'targets': targets, 'ili_index_status': index}
 
 
 def _classify(case):
@@ -96,6 +99,8 @@ def _classify(case):
                 ilis[ss['ili']] = ilis.get(ss['ili'], 0) + 1
     if any(v > 1 for v in ilis.values()):
         tags.append('ili-shared')
+    if ilis and case.get('ili_index_status'):
+        tags.append('ili-index:' + case['ili_index_status'])
     nt = any(t in tags for t in ('id-in-several-selected-lexicons',
                                  'extension-sense-on-base-entry', 'ili-shared'))
     return nt, sorted(set(tags))
@@ -125,6 +130,16 @@ def oracle(case):
                 call(sn.synset)
         for ss in w0.synsets():
             ss.senses()
+    if case.get('ili_index_status'):
+        used = sorted({ss['ili'] for d in u['lexicons'] for ss in d.get('synsets', [])
+                       if ss.get('ili') and ss['ili'] != 'in'})
+        if used:
+            if work is None:
+                work = env.new_dir('c10')
+            (work / 'index.tsv').write_text(
+                'ili\tstatus\n' + ''.join(f'{i}\t{case["ili_index_status"]}\n' for i in used),
+                encoding='utf-8')
+            wn.add(work / 'index.tsv', progress_handler=None)
     sel = case['selection']
     if sel['lexicon']:
         specs = sel['lexicon'].split()
@@ -346,5 +361,5 @@ SUBS = [
         budget={'quick': 100, 'thorough': 2000}, sample=_sample,
         fingerprint=lambda c: fingerprint([c['universe'], c['selection']]),
         require_tags=('id-in-several-selected-lexicons', 'extension-sense-on-base-entry',
-                      'ili-shared', 'mode:default', 'mode:several')),
+                      'ili-shared', 'mode:default', 'mode:several', 'ili-index:proposed')),
 ]
